@@ -20,6 +20,7 @@ import (
 	"sort"
 	"strconv"
 	"strings"
+	"unsafe"
 
 	"github.com/koykov/inspector"
 )
@@ -261,6 +262,56 @@ func offPath(t reflect.Type, path []string, before, after reflect.Value) bool {
 	return true
 }
 
+// storage witnesses: every []byte (over its whole capacity) and every string reachable in the object before the call, kept
+// as a second holder of the same memory together with a private copy of the content.  A Set must not write into memory that
+// was referenced before it ran - bytes and strings stored into an object may be shared with whoever supplied them (a
+// []byte -> []byte Set stores the source slice itself, a string -> []byte Set a view of the string).
+type storageWitness struct {
+	view []byte
+	was  string
+}
+
+func collectStorage(v reflect.Value, out *[]storageWitness, depth int) {
+	if !v.IsValid() || depth > 12 {
+		return
+	}
+	switch v.Kind() {
+	case reflect.Ptr, reflect.Interface:
+		if !v.IsNil() {
+			collectStorage(v.Elem(), out, depth+1)
+		}
+	case reflect.Struct:
+		for i := 0; i < v.NumField(); i++ {
+			collectStorage(v.Field(i), out, depth+1)
+		}
+	case reflect.Slice:
+		if v.IsNil() {
+			return
+		}
+		if v.Type().Elem().Kind() == reflect.Uint8 {
+			if v.Cap() > 0 {
+				b := v.Bytes()
+				b = b[:cap(b)]
+				*out = append(*out, storageWitness{view: b, was: string(b)})
+			}
+			return
+		}
+		for i := 0; i < v.Len(); i++ {
+			collectStorage(v.Index(i), out, depth+1)
+		}
+	case reflect.Map:
+		it := v.MapRange()
+		for it.Next() {
+			collectStorage(it.Key(), out, depth+1)
+			collectStorage(it.Value(), out, depth+1)
+		}
+	case reflect.String:
+		if s := v.String(); len(s) > 0 {
+			*out = append(*out, storageWitness{view: unsafe.Slice(unsafe.StringData(s), len(s)), was: strings.Clone(s)})
+		}
+	}
+}
+
 func init() {
 	setop := func(frame bool) opfn {
 		return func(ins inspector.Inspector, t reflect.Type, form string, args []string, value string) string {
@@ -268,6 +319,10 @@ func init() {
 			buffered := args[1] == "1"
 			src := Source(args[2])
 			a, _ := Arg(t, form, value)
+			var wit []storageWitness
+			if frame {
+				collectStorage(reflect.ValueOf(a), &wit, 0)
+			}
 			err := callSet(ins, a, path, buffered, src)
 			after := reflect.ValueOf(a)
 			for after.Kind() == reflect.Ptr && after.Type() != t {
@@ -277,6 +332,11 @@ func init() {
 				return "e=" + ErrName(err) + ";obj=" + dumpS(after)
 			}
 			before := Build(t, value)
+			for _, w := range wit {
+				if string(w.view) != w.was {
+					return "frame=0:storage-written(" + hex.EncodeToString([]byte(w.was)) + "->" + hex.EncodeToString(w.view) + ")"
+				}
+			}
 			if offPath(t, path, before, after) {
 				return "frame=1"
 			}
